@@ -658,4 +658,13 @@ Proof.
   destruct (HR n) as [-> _]. rewrite (stateless_preserves_state m reset from steps _ _ _ _ E n). reflexivity.
 Qed.
 
+(* from rest the `keep` flag of the initial load is irrelevant: it only matters when a proxy is already there *)
+Lemma load_keep_irrelevant_at_rest (m : model) (el : lenv) : NoDup (ids_of m) -> at_rest el ->
+  forall n, load_proxys m true el n = load_proxys m false el n.
+Proof.
+  intros Hnd Hr n.
+  destruct (load_proxys_fields m true el n) as (A1 & B1 & C1), (load_proxys_fields m false el n) as (A2 & B2 & C2).
+  apply lnode_eq; try congruence. rewrite !load_proxys_proxy by assumption. destruct (Hr n) as [-> _]. reflexivity.
+Qed.
+
 End Refine.
